@@ -92,6 +92,8 @@ MUTANTS = [
     ("c20-revert-created-groups-removed", "C20", V + "vmap_export.py",
      "                for parent_group, group_name in reversed(created_groups):\n                    if group_name in parent_group:\n                        del parent_group[group_name]\n                raise",
      "                raise"),
+    ("c20-revert-interleaved-rows", "C20", V + "vmap_export.py",
+     "data=mesh[column_names].iloc[block_order], chunks=True)", "data=mesh[column_names], chunks=True)"),
     ("c20-revert-counter-rollback", "C20", V + "vmap_export.py",
      "                geometry_group.attrs['MYSIZE'] = variable_count\n", ""),
     # ---- C04: junction of the HCM passes
